@@ -16,13 +16,20 @@
 #define VF_MAXLEN 0x7fffffffffffUL      /* CBMC's maximum object size with 16 object bits */
 
 /* ---------------------------------------------------------------- ghost state */
-void  *g_live;          /* one arbitrarily chosen block allocated through a model allocator and not yet released */
-size_t g_libc_calls;    /* number of calls to the *libc* allocator names (malloc/free/realloc as seen by library code) */
-size_t g_hook_allocs;   /* successful allocations through vf_alloc / vf_realloc */
-size_t g_hook_frees;    /* non-NULL releases through vf_free / vf_realloc */
+/* ghost variables are grouped in structs so that an assigns clause names ONE target per group (the dfcc inclusion check is quadratic in the number of targets) */
+struct vf_alloc_ghost {
+    void  *live;          /* one arbitrarily chosen block allocated through a model allocator and not yet released */
+    size_t libc_calls;    /* number of calls to the *libc* allocator names (malloc/free/realloc as seen by library code) */
+    size_t hook_allocs;   /* successful allocations through vf_alloc / vf_realloc */
+    size_t hook_frees;    /* non-NULL releases through vf_free / vf_realloc */
+} g_al;
+#define g_live g_al.live
+#define g_libc_calls g_al.libc_calls
+#define g_hook_allocs g_al.hook_allocs
+#define g_hook_frees g_al.hook_frees
 size_t g_k;             /* an arbitrary index fixed by the harness: pointwise "for all k" postconditions */
 size_t g_k2;            /* a second arbitrary index (copy models are exact at g_k and g_k2) */
-#define GHOST_ALLOC g_live, g_libc_calls, g_hook_allocs, g_hook_frees
+#define GHOST_ALLOC g_al
 
 /* vacuity guard: a cover goal is an assertion that must FAIL (the condition is reachable) */
 #define VF_COVER(c) __CPROVER_assert(!(c), "VF_COVER " #c)
@@ -190,12 +197,7 @@ void *memcpy(void *dst, const void *src, size_t n)
     __CPROVER_assert(!__CPROVER_same_object(dst, src) ||
                      __CPROVER_POINTER_OFFSET(dst) + n <= __CPROVER_POINTER_OFFSET(src) ||
                      __CPROVER_POINTER_OFFSET(src) + n <= __CPROVER_POINTER_OFFSET(dst), "memcpy: no overlap");
-    if (n == 64)
-    {   /* struct copies (sizeof(cJSON) == 64): exact */
-        struct vf_b64 { unsigned char b[64]; };
-        *(struct vf_b64*)dst = *(const struct vf_b64*)src;
-    }
-    else if (n > 0)
+    if (n > 0)
     {
 #ifndef VF_MEMCPY_NOCONTENT
         unsigned char v = (g_k < n) ? ((const unsigned char*)src)[g_k] : 0;
@@ -212,6 +214,16 @@ void *memcpy(void *dst, const void *src, size_t n)
     return dst;
 }
 #endif
+
+/* memcpy of one cJSON node (annotate rule R5): exact */
+void *vf_memcpy_cjson(void *dst, const void *src, size_t n)
+{
+    struct vf_b64 { unsigned char b[64]; };
+    __CPROVER_assert(n == 64, "struct copy model: sizeof(cJSON) == 64");
+    __CPROVER_assert(__CPROVER_r_ok(src, 64) && __CPROVER_w_ok(dst, 64), "memcpy: node readable / writable");
+    *(struct vf_b64*)dst = *(const struct vf_b64*)src;
+    return dst;
+}
 
 int tolower(int c)
 {
@@ -261,8 +273,12 @@ static size_t vf_numlen(const unsigned char *s, size_t n, unsigned char dp)
 }
 /* ghost record of the last strtod call: value returned, length of the string passed, bytes consumed, and the byte of the
  * argument at the arbitrary index g_k (pointwise view of the argument string for the caller's contract) */
-double g_strtod_value; size_t g_strtod_len, g_strtod_consumed; unsigned char g_strtod_at_k;
-#define GHOST_STRTOD g_strtod_value, g_strtod_len, g_strtod_consumed, g_strtod_at_k
+struct vf_strtod_ghost { double value; size_t len, consumed; unsigned char at_k; } g_sd;
+#define g_strtod_value g_sd.value
+#define g_strtod_len g_sd.len
+#define g_strtod_consumed g_sd.consumed
+#define g_strtod_at_k g_sd.at_k
+#define GHOST_STRTOD g_sd
 double strtod(const char *nptr, char **endptr)
 {
     double v = nondet_double();
@@ -290,8 +306,11 @@ double strtod(const char *nptr, char **endptr)
 
 /* ghost: which literal format the last sprintf used; whether the last sscanf converted and to what */
 enum { FMT_NONE = 0, FMT_NULL, FMT_D, FMT_15G, FMT_17G, FMT_U04X };
-int g_fmt; _Bool g_scan_ok; double g_scan_value;
-#define GHOST_FMT g_fmt, g_scan_ok, g_scan_value
+struct vf_fmt_ghost { int fmt; _Bool scan_ok; double scan_value; } g_fm;
+#define g_fmt g_fm.fmt
+#define g_scan_ok g_fm.scan_ok
+#define g_scan_value g_fm.scan_value
+#define GHOST_FMT g_fm
 static int vf_w(char *s, int lo, int hi)
 {
     int n = nondet_int();
